@@ -361,28 +361,35 @@ func c08Choose(tier int, modes int) *c08Case {
 	return c
 }
 
-// c08StructItems: the entries the structural chooser combines.
+// c08StructItems: the entries the structural chooser combines in pairs (quick tier); c08StructItems3: in triples
+// (thorough tier: the two transactions, the two directives with a subdirective line, one single-line directive,
+// the include directive, the comment block).
 var c08StructItems = []int{c08IT1, c08IT2, c08IAcct0, c08IAcct3, c08IComm4, c08IInclude, c08IPrice, c08IComment2, c08IYear}
+var c08StructItems3 = []int{c08IT1, c08IT2, c08IAcct3, c08IComm4, c08IInclude, c08IPrice, c08IComment2}
 
 // c08ChooseStruct: 2..n entries in every order, each pair adjacent or separated by a blank line; base shapes,
-// at most one wide character (in the description or an account segment).
+// at most one astral character (pairs: in the description or an account segment; triples: in the account segment).
 func c08ChooseStruct(n int) *c08Case {
 	o := &c08Opt{hws: 1, gap: 2, site: -1, site2: -1}
 	c := &c08Case{o: o, line: -1}
 	k := 2 + zzverif.Choice("entries", n-1)
+	items, sites := c08StructItems, []int{c08SDesc, c08SSeg1}
+	if k == 3 {
+		items, sites = c08StructItems3, []int{c08SSeg1}
+	}
 	for i := 0; i < k; i++ {
 		if i > 0 && zzverif.Choice("sep"+zzverif.Itoa(i), 2) == 1 {
 			c.items = append(c.items, c08IBlank)
 		}
-		c.items = append(c.items, c08StructItems[zzverif.Choice("entry"+zzverif.Itoa(i), len(c08StructItems))])
+		c.items = append(c.items, items[zzverif.Choice("entry"+zzverif.Itoa(i), len(items))])
 	}
 	if zzverif.Choice("trail", 2) == 1 {
 		c.items = append(c.items, c08IPostingComment)
 		zzverif.Assume(c.items[len(c.items)-2] == c08IT1 || c.items[len(c.items)-2] == c08IT2)
 	}
 	o.noEOL = zzverif.Choice("noeol", 2)
-	if zzverif.Choice("wide", 2) == 1 {
-		o.site = []int{c08SDesc, c08SSeg1}[zzverif.Choice("site", 2)]
+	if w := zzverif.Choice("wide", len(sites)+1); w > 0 {
+		o.site = sites[w-1]
 		o.class = 3
 	}
 	return c
